@@ -23,20 +23,28 @@ def cond_class(kind, pre):
     return getattr(base, pre)
 
 
-def arg_obj(a):
-    """term argument -> python object handed to the DSL"""
+def arg_obj(a, shared=None):
+    """term argument -> python object handed to the DSL (shared: a dict; equal plain containers become ONE object)"""
     if M.is_typeref(a):
         return M.TYPES.get(a["$type"]) or M.TYPES_EXTRA[a["$type"]]
     if M.is_pathref(a):
         return path_obj(a["$path"])
-    if type(a) is list:
-        return [arg_obj(i) for i in a]
-    if type(a) is dict:
-        return {k: arg_obj(v) for k, v in a.items()}
+    if type(a) in (list, dict):
+        key = None
+        if shared is not None and a and "$" not in repr(a):
+            from .lit import canon
+            key = repr(canon(a))
+            if key in shared:
+                shared["hits"] = shared.get("hits", 0) + 1
+                return shared[key]
+        out = [arg_obj(i, shared) for i in a] if type(a) is list else {k: arg_obj(v, shared) for k, v in a.items()}
+        if key is not None:
+            shared[key] = out
+        return out
     return a
 
 
-def cond_obj(term):
+def cond_obj(term, shared=None):
     _, C, _ = V()
     c = term["c"]
     if c == "null":
@@ -44,11 +52,11 @@ def cond_obj(term):
     if c == "leaf":
         cls = cond_class(term["kind"], term.get("pre"))
         meth = getattr(cls, term["fn"])
-        args = [arg_obj(a) for a in term.get("args", [])]
-        kwargs = {k: arg_obj(v) for k, v in term.get("kwargs", {}).items()}
+        args = [arg_obj(a, shared) for a in term.get("args", [])]
+        kwargs = {k: arg_obj(v, shared) for k, v in term.get("kwargs", {}).items()}
         return meth(*args, **kwargs)
-    a = cond_obj(term["a"])
-    b = cond_obj(term["b"])
+    a = cond_obj(term["a"], shared)
+    b = cond_obj(term["b"], shared)
     if c == "and":
         return a & b
     if c == "or":
